@@ -179,7 +179,8 @@ func cmdCheck(args []string) int {
 		}
 		_, isExcluded := excluded[o.Name]
 		isNew := !claimed[o.Name] && !isExcluded && !o.Canary
-		if *all || *update || claimed[o.Name] || o.Canary || isNew {
+		// excluded (slow) obligations are solved too: later obligations assume them
+		if *all || *update || claimed[o.Name] || o.Canary || isNew || isExcluded {
 			todo = append(todo, o)
 		}
 	}
@@ -189,6 +190,9 @@ func cmdCheck(args []string) int {
 	}
 	outDir := filepath.Join(verifRoot, "out", "vc", *prop)
 	os.RemoveAll(outDir)
+	if *only == "" {
+		os.RemoveAll(filepath.Join(verifRoot, "out", "replay", *prop))
+	}
 	ts := time.Now()
 	var wg sync.WaitGroup
 	sem := make(chan struct{}, 8)
@@ -231,9 +235,9 @@ func cmdCheck(args []string) int {
 			continue
 		}
 		if !claimed[o.Name] {
-			if _, isExcluded := excluded[o.Name]; !isExcluded && o.Result == "sat" && unitErr[o.unit.name] == "" && !*update {
-				// an obligation that did not exist when the claim was recorded and has a counterexample
-				failures = append(failures, failure{o.Name, "new obligation (not present when the claim was recorded) has a counterexample", o})
+			if reason, isExcluded := excluded[o.Name]; o.Result == "sat" && unitErr[o.unit.name] == "" && !*update && !(isExcluded && strings.Contains(reason, ": sat by")) {
+				// an unclaimed obligation (new, or excluded only for being slow) has a counterexample
+				failures = append(failures, failure{o.Name, "obligation outside the claimed set (new, or excluded for speed) has a counterexample", o})
 				continue
 			}
 			attempted = append(attempted, fmt.Sprintf("%s: %s (%s, %.2fs)", o.Name, o.Result, o.Solver, o.Secs))
